@@ -23,7 +23,7 @@ Theorem normalize_is_prestep e o u t r hp :
 Proof.
   intros Hi Ht. unfold normalize_split. rewrite Hi, Ht. cbn [bind infer_redirection_o no_infer].
   (* the core only uses `original` in the NOriginal answer *)
-  unfold normalize_core. cbv zeta.
+  unfold normalize_core, normalize_parsed. cbv zeta.
   destruct (urlsplit e _) as [sp|[]]; try discriminate; try (intros H; exact H).
   destruct (port sp) as [prt|[]]; try discriminate; try (intros H; exact H).
 Qed.
@@ -32,7 +32,7 @@ Qed.
 Theorem normalize_original e o u s : normalize_split e o u = Ok (NOriginal s) -> s = u.
 Proof.
   unfold normalize_split. destruct (if infer_redirection_o o then infer_redirection e u else Ok u) as [t|x]; cbn [bind]; [|discriminate].
-  unfold normalize_core. cbv zeta.
+  unfold normalize_core, normalize_parsed. cbv zeta.
   destruct (urlsplit e _) as [sp|[]]; try discriminate; try (intros [= <-]; reflexivity).
   destruct (port sp) as [prt|[]]; try discriminate; try (intros [= <-]; reflexivity).
   destruct (match hostname sp with Some (_ :: _) => _ | x => Ok x end) as [h|x]; cbn [bind]; discriminate.
@@ -69,7 +69,7 @@ Proof.
   destruct (if infer_redirection_o o then infer_redirection e u else Ok u) as [t|y] eqn:Ei; cbn [bind].
   2:{ intros [= <-]. destruct (infer_redirection_o o); [|discriminate].
       destruct (infer_total e u) as [[r Hr]|Hr]; rewrite Hr in Ei; [discriminate|]. injection Ei as <-. reflexivity. }
-  unfold normalize_core. cbv zeta.
+  unfold normalize_core, normalize_parsed. cbv zeta.
   destruct (urlsplit e _) as [sp|y] eqn:Es.
   - destruct (port sp) as [prt|y] eqn:Ep.
     + destruct (match hostname sp with Some (_ :: _) => _ | z => Ok z end) as [h|y] eqn:Eh; cbn [bind].
@@ -85,7 +85,7 @@ Qed.
 (* C06: the fingerprint never carries a scheme *)
 Theorem fingerprint_no_scheme e t ss u r : fingerprint_split e t ss u = Ok r -> scheme r = [].
 Proof.
-  unfold fingerprint_split. destruct (normalize_split e fingerprint_opts (lower u)) as [[sp hp|s]|x]; cbn [bind]; try discriminate.
+  unfold fingerprint_split, fingerprint_split_with. destruct (normalize_split e fingerprint_opts (lower u)) as [[sp hp|s]|x]; cbn [bind]; try discriminate.
   destruct (match hostname sp with Some (_ :: _) => _ | z => Ok z end) as [h|x]; cbn [bind]; [|discriminate].
   destruct (port sp); cbn [bind]; [|discriminate]. intros [= <-]. reflexivity.
 Qed.
@@ -124,4 +124,4 @@ Qed.
 (* C06: the fingerprint only depends on the lower-cased url: letter case is irrelevant everywhere *)
 Theorem fingerprint_case_irrelevant e t ss u1 u2 :
   lower u1 = lower u2 -> fingerprint_url e t ss u1 = fingerprint_url e t ss u2.
-Proof. intros H. unfold fingerprint_url, fingerprint_split. rewrite H. reflexivity. Qed.
+Proof. intros H. unfold fingerprint_url, fingerprint_split, fingerprint_split_with. rewrite H. reflexivity. Qed.
